@@ -368,3 +368,282 @@ Proof.
   replace ((0 <=? k / c) && (k / c <? r) && (0 <=? k mod c) && (k mod c <? c)) with true by lia.
   replace (k / c * c + k mod c) with k by lia. reflexivity.
 Qed.
+
+(* ------------------------------------------------------------------ more array lemmas *)
+
+Lemma pick_arange {A : Type} (p : A -> bool) d l :
+  pick (np_arange (vlen l)) (map p l) = filter (fun c => p (fn_of d l c)) (np_arange (vlen l)).
+Proof.
+  rewrite <- pick_map_filter. f_equal.
+  rewrite <- (map_map (fn_of d l) p). change (map (fn_of d l) (np_arange (vlen l))) with (tab (vlen l) (fn_of d l)).
+  rewrite tab_fn_of. reflexivity.
+Qed.
+
+Lemma take_oq l idx : (forall i, In i idx -> 0 <= i < vlen l) ->
+  v_take (map x_of_oq l) idx = Some (map (fun c => x_of_oq (fn_of None l c)) idx).
+Proof.
+  intro H. rewrite (v_take_fn _ (x_of_oq None)) by (unfold vlen; rewrite map_length; exact H).
+  f_equal. apply map_ext. intro c. apply fn_of_map.
+Qed.
+
+Lemma mask_map {A : Type} (p : A -> bool) l : v_mask l (map p l) = Some (filter p l).
+Proof. unfold v_mask. rewrite map_length, Nat.eqb_refl, pick_map_filter. reflexivity. Qed.
+
+Lemma take_where_map {A : Type} (p : A -> bool) l : v_take l (np_where1 (map p l)) = Some (filter p l).
+Proof. rewrite take_where by (rewrite map_length; reflexivity). rewrite pick_map_filter. reflexivity. Qed.
+
+Lemma take_where_map2 {A B : Type} (f : A -> B) (p : A -> bool) l :
+  v_take (map f l) (np_where1 (map p l)) = Some (map f (filter p l)).
+Proof. rewrite take_where by (rewrite !map_length; reflexivity). rewrite pick_map, pick_map_filter. reflexivity. Qed.
+
+Lemma tile_rows_id (xs R : list Z) :
+  np_tile_rows R (vlen xs) = mkF (length xs) (length R) (G (fun _ d => d) xs R).
+Proof.
+  unfold np_tile_rows, vlen. rewrite Nat2Z.id. f_equal.
+  unfold G. induction xs; simpl; [reflexivity|]. rewrite IHxs, map_id. reflexivity.
+Qed.
+
+Lemma fm_zip_maps {A B C D : Type} (f : B -> C -> D) (g : A -> B) (h : A -> C) (m : fmat A) :
+  fm_zip f (fm_map g m) (fm_map h m) = Some (fm_map (fun x => f (g x) (h x)) m).
+Proof.
+  unfold fm_zip, fm_map. cbn [fm_r fm_c fm_d]. rewrite !Nat.eqb_refl, !map_length, Nat.eqb_refl. cbn [andb].
+  rewrite zip2_maps. reflexivity.
+Qed.
+
+Lemma take2_where2 {A : Type} (m : fmat A) (p : A -> bool) : length (fm_d m) = (fm_r m * fm_c m)%nat ->
+  fm_take2 m (np_where2 (fm_map p m)) = Some (filter p (fm_d m)).
+Proof.
+  intro H. unfold fm_take2, np_where2, fm_map. cbn [fm_r fm_c fm_d].
+  rewrite lin_unlin by (unfold vlen; rewrite map_length, H; lia).
+  apply take_where_map.
+Qed.
+
+Lemma scatter2_where2 {A B : Type} (m : fmat A) (p : A -> bool) (g : A -> B) (x : B) :
+  length (fm_d m) = (fm_r m * fm_c m)%nat ->
+  fm_scatter2 (fm_full_like m x) (np_where2 (fm_map p m)) (map g (filter p (fm_d m)))
+  = Some (mkF (fm_r m) (fm_c m) (map (fun y => if p y then g y else x) (fm_d m))).
+Proof.
+  intro H. unfold fm_scatter2, np_where2, fm_map. cbn [fm_r fm_c fm_d].
+  rewrite (lin_unlin (fm_full_like m x)) by (cbn [fm_full_like fm_r fm_c]; unfold vlen; rewrite map_length, H; lia).
+  cbn [fm_full_like fm_r fm_c fm_d]. rewrite <- H.
+  rewrite scatter_where by (rewrite repeat_length; reflexivity).
+  rewrite zip2_repeat_l. reflexivity.
+Qed.
+
+Lemma In_G {T : Type} (h : Z -> Z -> T) xs R x : In x (G h xs R) -> exists c d, In c xs /\ In d R /\ x = h c d.
+Proof.
+  unfold G. rewrite in_flat_map. intros [c [Hc Hx]]. apply in_map_iff in Hx. destruct Hx as [d [E Hd]].
+  exists c, d. auto.
+Qed.
+
+(* ------------------------------------------------------------------ scalars *)
+
+Lemma x_to_int_rint o : x_to_int (xrint (x_of_oq o)) = match o with Some d => rint d | None => INT_MIN end.
+Proof. destruct o; [|reflexivity]. cbn [x_of_oq xrint x_to_int inject_Z Qnum Qden]. apply Z.quot_1_r. Qed.
+
+Definition hidx (c d : Z) : xf := xadd (xofz d) (xofz c).
+
+Lemma hidx_ge0 c d : xge (hidx c d) (xofz 0) = (0 <=? d + c).
+Proof.
+  unfold hidx, xge, xle, xadd, xofz, Qle_bool, Qplus, inject_Z. cbn [Qnum Qden].
+  apply Bool.eq_iff_eq_true. rewrite !Z.leb_le. change (Z.pos (1 * 1)) with 1. lia.
+Qed.
+Lemma hidx_lt c d n : xlt (hidx c d) (xofz n) = (d + c <? n).
+Proof.
+  unfold hidx, xlt, qltb, xadd, xofz, Qle_bool, Qplus, inject_Z. cbn [Qnum Qden].
+  apply Bool.eq_iff_eq_true. rewrite negb_true_iff, Z.leb_gt, Z.ltb_lt. change (Z.pos (1 * 1)) with 1. lia.
+Qed.
+Lemma hidx_int c d : x_to_int (hidx c d) = d + c.
+Proof.
+  unfold hidx, x_to_int, xadd, xofz, Qplus, inject_Z. cbn [Qnum Qden]. change (Z.pos (1 * 1)) with 1.
+  rewrite Z.quot_1_r. lia.
+Qed.
+
+(* ------------------------------------------------------------------ generated row function = model row function *)
+
+Definition xinf (o : option Q) := match o with Some q => XFin q | None => XPInf end.
+Lemma nan_to_inf o : (if xisnan (x_of_oq o) then XPInf else x_of_oq o) = xinf o.
+Proof. destruct o; reflexivity. Qed.
+Lemma Qeq_bool_inject a b : Qeq_bool (inject_Z a) (inject_Z b) = (a =? b).
+Proof.
+  unfold Qeq_bool, inject_Z. cbn [Qnum Qden]. apply Bool.eq_iff_eq_true.
+  rewrite <- Zeq_is_eq_bool, Z.eqb_eq. lia.
+Qed.
+Lemma hit_gen nn dRf c d :
+  xeqb (xrint (if xge (hidx c d) (xofz 0) && xlt (hidx c d) (xofz nn)
+               then x_of_oq (dRf (x_to_int (hidx c d))) else XPInf)) (xofz (-1 * d))
+  = hit nn dRf c d.
+Proof.
+  rewrite hidx_ge0, hidx_lt, hidx_int. unfold hit.
+  destruct ((0 <=? d + c) && (d + c <? nn)); [|reflexivity].
+  destruct (dRf (d + c)); [|reflexivity].
+  cbn [x_of_oq xrint xeqb xofz]. rewrite Qeq_bool_inject. f_equal; try lia.
+Qed.
+Definition hbx nn (dRf : Z -> option Q) (c d : Z) : bool :=
+  xeqb (xrint (if xge (hidx c d) (xofz 0) && xlt (hidx c d) (xofz nn)
+               then x_of_oq (dRf (x_to_int (hidx c d))) else XPInf)) (xofz (-1 * d)).
+Lemma comp_gen nn dRf dmin dmax c :
+  (if b_sum (map (hbx nn dRf c) (np_arange2 dmin (dmax + 1))) >? 1 then 1
+   else b_sum (map (hbx nn dRf c) (np_arange2 dmin (dmax + 1)))) = comp nn dRf dmin dmax c.
+Proof.
+  unfold hbx. rewrite (map_ext _ _ (hit_gen nn dRf c)), b_sum_filter. unfold comp. rewrite Z.gtb_ltb. reflexivity.
+Qed.
+Lemma valid_768 m : 0 <= m < 65536 -> Z.land m 963 = 0 -> m + 768 < 65536.
+Proof.
+  intros Hm H. rewrite (add_bit_lor m 768 H eq_refl).
+  destruct (Z.eq_dec m 0) as [->|N]; [cbn; lia|].
+  change 65536 with (2 ^ 16). apply Z.log2_lt_pow2.
+  - assert (0 <= Z.lor m 768) by (apply Z.lor_nonneg; lia).
+    assert (Z.lor m 768 <> 0) by (intro E; apply Z.lor_eq_0_iff in E; lia). lia.
+  - rewrite Z.log2_lor by lia.
+    assert (Z.log2 m < 16) by (apply Z.log2_lt_pow2; lia).
+    change (Z.log2 768) with 9. lia.
+Qed.
+Lemma comp_01 nn dRf dmin dmax c : 0 <= comp nn dRf dmin dmax c <= 1.
+Proof. unfold comp. destruct (1 <? _) eqn:E; lia. Qed.
+Lemma xgt_egt thr (a b : option Q) :
+  xgt (xabs (xadd (xinf a) (xinf b))) (XFin thr) = egt (eabs (eadd (ext_of a) (ext_of b))) thr.
+Proof. destruct a, b; reflexivity. Qed.
+Lemma xdist_conf (a b : option Q) :
+  xabs (xadd (xinf a) (xinf b)) = x_of_conf (conf_of_ext (eabs (eadd (ext_of a) (ext_of b)))).
+Proof. destruct a, b; reflexivity. Qed.
+Section Row.
+  Variables (thr : Q) (dmin dmax : Z) (mk : list Z) (dL dR : list (option Q)).
+  Hypothesis HL : length dL = length mk.
+  Hypothesis HR : length dR = length mk.
+  Hypothesis Hm : Forall (fun m => 0 <= m < 65536) mk.
+  Let n := vlen mk.
+  Let mkf := fn_of 0 mk.
+  Let dLf := fn_of None dL.
+  Let dRf := fn_of None dR.
+  Let R := np_arange2 dmin (dmax + 1).
+  Let cr := col_right_of true dLf.
+  Let pv c := is_valid (mkf c).
+  Let CL := filter pv (np_arange n).
+  Let pin c := in_img n (cr c).
+  Let CLI := filter pin CL.
+  Let xdist c := xabs (xadd (xinf (dRf (cr c))) (xinf (dLf c))).
+  Let pinv c := xgt (xdist c) (XFin thr).
+  Let INV := filter pinv CLI.
+  Let pout c := (cr c <? 0) || (n <=? cr c).
+  Let OUT := filter pout CL.
+
+  Lemma HCL : forall i, In i CL -> 0 <= i < n.
+  Proof. intros i H. apply filter_In in H. apply In_arange. tauto. Qed.
+  Lemma HCLI : forall i, In i CLI -> 0 <= i < n /\ 0 <= cr i < n.
+  Proof. intros i H. apply filter_In in H. destruct H as [H1 H2]. split; [apply HCL; exact H1|]. unfold pin, in_img in H2. lia. Qed.
+  Lemma HINV : forall i, In i INV -> 0 <= i < n.
+  Proof. intros i H. apply filter_In in H. apply HCLI. tauto. Qed.
+
+  Theorem gen_row_eq_model :
+    XCheckKernel.g_row (XFin thr) n R mk (map x_of_oq dL) (map x_of_oq dR) (repeat XNaN (length mk))
+    = Some (tab n (mask_row true true n dLf dRf mkf thr dmin dmax),
+            tab n (fun c => x_of_conf (conf_row true n dLf dRf mkf c))).
+  Proof.
+    unfold XCheckKernel.g_row. cbv zeta.
+    (* valid_pixel, col_left *)
+    unfold vs at 1 2. rewrite map_map.
+    rewrite take_where by (rewrite arange_length, map_length; unfold n, vlen; lia).
+    cbv beta iota.
+    match goal with |- context [pick (np_arange n) ?b] =>
+      replace (pick (np_arange n) b) with CL by (unfold n; rewrite (pick_arange _ 0); reflexivity) end.
+    (* col_right *)
+    rewrite take_oq by (intros i Hi; apply HCL in Hi; unfold n, vlen in *; lia).
+    cbv beta iota. rewrite !map_map, vv2_map_r. cbv beta iota.
+    rewrite (map_ext _ cr) by (intro c; unfold cr, col_right_of; rewrite x_to_int_rint; reflexivity).
+    (* inside_right *)
+    unfold vs at 1 2. rewrite !map_map, vv2_maps. cbv beta iota.
+    rewrite (map_ext _ pin) by (intro c; unfold pin, in_img; rewrite Z.geb_leb; reflexivity).
+    rewrite take_where_map2, !take_where_map. cbv beta iota.
+    change (filter pin CL) with CLI.
+    (* right_disp, left_disp *)
+    rewrite take_oq by (intros i Hi; apply in_map_iff in Hi; destruct Hi as [c [<- Hc]]; apply HCLI in Hc; unfold n, vlen in *; lia).
+    cbv beta iota. rewrite map_map, setmask_map, map_map. cbv beta iota.
+    rewrite (map_ext _ _ (fun c => nan_to_inf (dRf (cr c)))).
+    rewrite take_oq by (intros i Hi; apply HCLI in Hi; unfold n, vlen in *; lia).
+    cbv beta iota. rewrite setmask_map, map_map. cbv beta iota.
+    rewrite (map_ext _ _ (fun c => nan_to_inf (dLf c))).
+    (* conf_measure, invalid *)
+    rewrite vv2_maps. cbv beta iota. rewrite map_map.
+    change (map _ CLI) with (map xdist CLI).
+    rewrite (scatter_map XNaN) by (intros i Hi; apply HCLI in Hi; unfold n, vlen in *; rewrite repeat_length; lia).
+    cbv beta iota.
+    unfold vs at 1 2 3 4 5 6. rewrite !map_map. fold pinv. rewrite !mask_map. cbv beta iota. fold INV.
+    (* the mismatch search *)
+    rewrite tile_rows_id, T_tile_G. unfold fm_map at 1 2. cbn [fm_r fm_c fm_d]. rewrite !map_G, fm_zip_G.
+    cbv beta iota.
+    change (G (fun c d => xadd (xofz d) (xofz c)) INV R) with (G hidx INV R).
+    set (IDX := mkF (length INV) (length R) (G hidx INV R)).
+    assert (HIDX : length (fm_d IDX) = (fm_r IDX * fm_c IDX)%nat) by apply G_length.
+    rewrite fm_zip_maps. cbv beta iota.
+    set (pin2 := fun x : xf => xge x (xofz 0) && xlt x (xofz n)).
+    rewrite take2_where2 by exact HIDX. cbv beta iota.
+    assert (Hpin2 : forall x, In x (filter pin2 (fm_d IDX)) -> 0 <= x_to_int x < n).
+    { intros x Hx. apply filter_In in Hx. destruct Hx as [Hx Hp]. apply In_G in Hx.
+      destruct Hx as [c [d [_ [_ ->]]]]. unfold pin2 in Hp. rewrite hidx_ge0, hidx_lt in Hp. rewrite hidx_int. lia. }
+    rewrite take_oq by (intros i Hi; apply in_map_iff in Hi; destruct Hi as [x [<- Hx]]; apply Hpin2 in Hx;
+                        unfold n, vlen in *; lia).
+    cbv beta iota. rewrite map_map.
+    rewrite scatter2_where2 by exact HIDX. cbv beta iota.
+    (* comp *)
+    unfold sv at 1. rewrite tile_rows_G. unfold fm_map. unfold IDX. cbn [fm_r fm_c fm_d].
+    rewrite !map_map, !map_G, fm_zip_G. cbv beta iota.
+    unfold fbm_sum1. cbn [fm_r fm_c fm_d]. rewrite chunks_G, map_map, setmask_map, map_map. cbv beta iota.
+    rewrite (map_ext _ _ (comp_gen n dRf dmin dmax)).
+    (* the flag updates *)
+    unfold sv, vs. rewrite !map_map. fold pinv. rewrite !mask_map. cbv beta iota. fold INV.
+    rewrite iadd_s_map by exact HINV. cbv beta iota.
+    rewrite iadd_map by (intros i Hi; rewrite vlen_tab by apply vlen_nonneg; apply HINV; exact Hi). cbv beta iota.
+    rewrite isub_map by (intros i Hi; rewrite !vlen_tab by apply vlen_nonneg; apply HINV; exact Hi). cbv beta iota.
+    rewrite vv2_maps. cbv beta iota.
+    rewrite (map_ext _ pout) by (intro c; unfold pout; rewrite Z.geb_leb; reflexivity).
+    rewrite take_where_map. cbv beta iota. fold OUT.
+    rewrite iadd_s_map by (intros i Hi; rewrite !vlen_tab by apply vlen_nonneg; apply filter_In in Hi; apply HCL; tauto).
+    cbv beta iota. rewrite !vlen_tab by apply vlen_nonneg.
+    replace (vlen (repeat XNaN (length mk))) with n by (unfold n, vlen; rewrite repeat_length; reflexivity).
+    fold n. f_equal. f_equal.
+    - apply tab_ext. intros c Hc.
+      repeat (rewrite fn_of_tab by exact Hc; cbv beta).
+      unfold OUT, INV, CLI, CL. rewrite !existsb_filter, existsb_arange.
+      replace ((0 <=? c) && (c <? n)) with true by lia. rewrite !andb_true_r.
+      rewrite mask_row_pixel. unfold pixel_mask. cbv zeta beta.
+      replace ((0 <=? c) && (c <? n)) with true by lia. cbn [andb].
+      change (fn_of 0 mk c) with (mkf c). change (col_right_of true dLf c) with (cr c).
+      change (is_valid (mkf c)) with (pv c). change (in_img n (cr c)) with (pin c).
+      assert (Hmc : 0 <= mkf c < 65536).
+      { unfold mkf, fn_of. rewrite Forall_forall in Hm. apply Hm. apply nth_In. unfold n, vlen in Hc. lia. }
+      assert (H01 := comp_01 n dRf dmin dmax c).
+      assert (Epinv : pinv c = egt (dist dLf dRf (c, cr c)) thr) by apply xgt_egt.
+      change ValConst.PANDORA_MSK_PIXEL_OCCLUSION with 256. change ValConst.PANDORA_MSK_PIXEL_MISMATCH with 512.
+      change MSK_OCCLUSION with 256. change MSK_MISMATCH with 512.
+      rewrite <- Epinv.
+      assert (Eout : pout c = negb (pin c)) by (unfold pout, pin, in_img; lia).
+      change (is_outside true n (cr c)) with (pout c). rewrite Eout.
+      destruct (pv c) eqn:Ev; [|rewrite !andb_false_r; reflexivity].
+      assert (H768 : mkf c + 768 < 65536)
+        by (apply valid_768; [exact Hmc | unfold pv, is_valid in Ev; apply Z.eqb_eq; exact Ev]).
+      destruct (pin c), (pinv c); cbn [andb negb]; try reflexivity; unfold u16.
+      + destruct (Z.eq_dec (comp n dRf dmin dmax c) 0) as [E0|E0].
+        * rewrite E0. change (512 * 0) with 0. change (256 * 0) with 0. change (0 mod 65536) with 0.
+          rewrite !Z.add_0_r, !Z.sub_0_r. repeat rewrite (Z.mod_small (mkf c + 256)) by lia. reflexivity.
+        * assert (E1 : comp n dRf dmin dmax c = 1) by lia. rewrite E1.
+          change (512 * 1) with 512. change (256 * 1) with 256.
+          change (512 mod 65536) with 512. change (256 mod 65536) with 256.
+          rewrite (Z.mod_small (mkf c + 256)) by lia. rewrite (Z.mod_small (mkf c + 256 + 512)) by lia.
+          rewrite Z.mod_small by lia. reflexivity.
+      + rewrite Z.mod_small by lia. reflexivity.
+      + rewrite Z.mod_small by lia. reflexivity.
+    - apply tab_ext. intros c Hc.
+      unfold CLI, CL. rewrite !existsb_filter, existsb_arange.
+      replace ((0 <=? c) && (c <? n)) with true by lia. rewrite !andb_true_r.
+      rewrite conf_row_pixel. unfold pixel_conf. cbv zeta beta.
+      replace ((0 <=? c) && (c <? n)) with true by lia. cbn [andb].
+      change (fn_of 0 mk c) with (mkf c). change (col_right_of true dLf c) with (cr c).
+      change (is_valid (mkf c)) with (pv c). change (in_img n (cr c)) with (pin c).
+      rewrite (andb_comm (pin c)).
+      destruct (pv c && pin c).
+      + apply xdist_conf.
+      + unfold fn_of. destruct (nth_in_or_default (Z.to_nat c) (repeat XNaN (length mk)) XNaN) as [H|H]; [|exact H].
+        apply repeat_spec in H. exact H.
+  Qed.
+End Row.
